@@ -5,6 +5,7 @@ import CookModel.Props.C09
 import CookModel.Lemmas.GroupWhole
 import CookModel.Lemmas.GroupOutcome
 import CookModel.Props.C08
+import CookModel.Lemmas.FractionSat
 /-
   C10  Grouping and listing ingredients conserves quantities.
 
@@ -928,5 +929,80 @@ example : ((parseRecipe (α := Rat) C10_exEnvRefs "@a{1}\n\n@&a{=2}\n\n@b\n".toL
     (recipeScale (Converter.bundled Rat) c.toRecipe 2).2.ingredients,
     foldOutcome (recipeScale (Converter.bundled Rat) c.toRecipe 2).2.ingredients 0 [1]))) =
    some ([[1], [], []], [.scaled, .fixed, .noQuantity], some .fixed) := by decide +kernel
+
+/-! ### saturation of the fraction approximation (`Number::new_approx`, guard `whole == u32::MAX`) -/
+
+/-- **A fraction `new_approx` returns is never a saturated one.**  For every table, value, accuracy and limits: if
+    `Number::new_approx(value, …)` returns the fraction `whole num/den (+err)`, then
+    * it stands for exactly `value` (`whole + num/den + err = value`), `whole ≤ max_whole`, and `value` is below
+      `u32::MAX` (so the cast `value.trunc() as u32` did not saturate);
+    * EITHER (table branch) `whole` is the integral part of `value`: `whole < u32::MAX` and
+      `whole ≤ value < whole + 1`;
+    * OR (rounded branch, `num/den = 0/1`) `whole` is `value` rounded: `whole - 1/2 ≤ value < whole + 1/2`.
+    Without the guard `whole == u32::MAX` (seeded change C10-1 of round 8) `4294967296.5` was returned as
+    `4294967295 1/2`: the first disjunct fails (`whole + 1 ≤ value`) and so does the second. -/
+theorem C10_new_approx_no_saturation (t : List FracEntry) (v acc : Rat) (maxDen maxWhole w n d : Nat) (e : Rat)
+    (h : newApprox t v acc maxDen maxWhole = some (.fraction w n d e)) :
+    (Number.fraction w n d e).value = v ∧ w ≤ maxWhole ∧ v < ((u32Max : Nat) : Rat) ∧
+    ((w = wholeOf v ∧ w < u32Max ∧ (w : Rat) ≤ v ∧ v < (w : Rat) + 1) ∨
+     (n = 0 ∧ d = 1 ∧ (w : Rat) = ((ratRound v : Int) : Rat) ∧ (w : Rat) - 1/2 ≤ v ∧ v < (w : Rat) + 1/2)) := by
+  have hval := newApprox_value t v acc maxDen maxWhole _ h
+  obtain ⟨hv, hw, hne, hc⟩ := newApprox_cases t v acc maxDen maxWhole _ h
+  have hv0 : 0 ≤ v := Rat.le_of_lt hv
+  refine ⟨hval, ?_, fsat_lt_u32Max hv0 hne, ?_⟩
+  · rcases hc with ⟨h1, _⟩ | ⟨h1, _, _, h4⟩ | ⟨e', _, h1, _⟩
+    · cases h1
+    · cases h1; exact h4
+    · cases h1; exact hw
+  · rcases hc with ⟨h1, _⟩ | ⟨h1, _, _, h4⟩ | ⟨e', _, h1, _⟩
+    · cases h1
+    · cases h1
+      right
+      have hr := roundedOf_exact hv0 hne
+      have hb := fsat_round_bounds hv0
+      refine ⟨rfl, rfl, hr, ?_, ?_⟩
+      · rw [hr]; exact hb.1
+      · rw [hr]; exact hb.2
+    · cases h1
+      left
+      have hb := fsat_wholeOf_bounds hv0 hne
+      have hle := @fsat_wholeOf_lt v
+      exact ⟨rfl, by omega, hb.1, hb.2⟩
+
+/-- **`new_approx` refuses every value from `u32::MAX` on** — whatever the table, accuracy and limits (also
+    `max_whole = u32::MAX`, the default configuration): such a value stays a plain number. -/
+theorem C10_new_approx_refuses_beyond_u32 (t : List FracEntry) (v acc : Rat) (maxDen maxWhole : Nat)
+    (hbig : ((u32Max : Nat) : Rat) ≤ v) : newApprox t v acc maxDen maxWhole = none := by
+  cases hn : newApprox t v acc maxDen maxWhole with
+  | none => rfl
+  | some n =>
+    obtain ⟨hv, _, hne, _⟩ := newApprox_cases t v acc maxDen maxWhole n hn
+    have := fsat_lt_u32Max (Rat.le_of_lt hv) hne
+    exact absurd hbig (Rat.not_le.mpr this)
+
+/-- **Adding quantities to a group and fitting it conserves the total, with no bound on the amounts** — in particular
+    when the total exceeds `2^32` (the regression behind seeded change C10-1: `2147483648.5 cup + 2147483648 cup`
+    fitted to `4294967295 1/2 cup`, two cups less than the sum).  For every sound converter, every hash order, every
+    list of quantities `qs` and every linear class: the group built from `qs` and then fitted (whether `fit` returns
+    `Ok` or stops at an error) holds — per class total, both ends, and texts — exactly `qs`; and every number the
+    converter's approximation (`Converter::approx` = `Number::new_approx` with the unit's configuration, the only
+    place where `fit` makes a fraction: `tryApprox`, `fracCandidates`, `fitFractionApply`) returns stands for exactly
+    the value it was given, which is then below `u32::MAX`. -/
+theorem C10_fit_conserves_beyond_u32 {c : Converter Rat} (hc : c.Sound) (ord : MapOrder Rat) (hord : ord.IsPerm)
+    (qs : List (SQuantity Rat)) (cls : QClass) (hlin : LinearClass c cls) :
+    Holds c cls (((addAll c empty qs).fit c).1.iter ord) qs ∧
+    (∀ (v : Rat) (cfg : FracCfg Rat) (n : Number Rat), c.approx v cfg = some n →
+      n.value = v ∧ v < ((u32Max : Nat) : Rat)) ∧
+    (∀ (v : Rat) (cfg : FracCfg Rat), ((u32Max : Nat) : Rat) ≤ v → c.approx v cfg = none) := by
+  refine ⟨?_, ?_, ?_⟩
+  · obtain ⟨h1, h2⟩ := C10_fit_conserves hc ord hord (addAll c empty qs) cls
+    have hfit : Holds c cls (((addAll c empty qs).fit c).1.iter ord) ((addAll c empty qs).iter ord) :=
+      ⟨by rw [h1], by rw [h1], h2⟩
+    exact hfit.trans (C10_adds_conserve hc ord hord empty qs cls hlin).2
+  · intro v cfg n hn
+    obtain ⟨hv, _, hne, _⟩ := newApprox_cases _ v _ _ _ n hn
+    exact ⟨newApprox_value _ v _ _ _ n hn, fsat_lt_u32Max (Rat.le_of_lt hv) hne⟩
+  · intro v cfg hbig
+    exact C10_new_approx_refuses_beyond_u32 _ v _ _ _ hbig
 
 end Cook
